@@ -85,6 +85,7 @@ def run(ctx):
     by_method = {f.j["method"]: f for f in mw_impls}
     R.floor("rpc_service_methods", len(by_method), 3)
     validators = {}
+    abstract_ok = set()
     for m in ("call", "notification"):
         f = by_method.get(m)
         if not f:
@@ -106,6 +107,17 @@ def run(ctx):
             guard_edges = [e for e, v in edges]
             reach = reachable_without_edges(f, guard_edges)
             ok = ic.bb not in reach and bool(guard_edges)
+            if not ok or not any((F.fn_opt(v_) is not None) and _validator_shape_ok(F, F.fn_opt(v_)) for e_, v_ in edges):
+                # decided by abstract execution: whatever the predicate is called and whichever way round it is phrased
+                # (`!validate(..)`, `must_refuse(..)`, a generic helper over a private trait), the inner service is reached
+                # exactly when the request carries the Authorized marker or its method is not on the deny list
+                ok_abs, why_abs = _dispatch_abstract(F, f, ic)
+                if ok_abs:
+                    ok = True
+                    abstract_ok.add(m)
+                    edges = []
+                elif not ok:
+                    R.note("DISPATCH %s: abstract execution: %s" % (m, why_abs))
             R.ob(ok, "DISPATCH", ic.where(), "DISPATCH|%s|unguarded" % m,
                  "inner service.%s is reachable without passing the validator's true edge" % m,
                  sample={"rule": "DISPATCH", "path": m, "validator": [v for e, v in edges]})
@@ -114,7 +126,12 @@ def run(ctx):
     # batch
     fb = by_method.get("batch")
     if fb:
-        _check_batch(R, F, fb, validators)
+        if abstract_ok and not validators:
+            okb, whyb = _batch_abstract(F, fb)
+            R.ob(okb, "DISPATCH", fb.where(), "DISPATCH|batch|loop", "batch: %s" % whyb,
+                 sample={"rule": "DISPATCH batch path", "decided_by": "abstract execution", "row": "entry replaced by Err <=> Ok entry, listed method, no Authorized marker"})
+        else:
+            _check_batch(R, F, fb, validators)
     # validator semantics
     for m, v in sorted(validators.items()):
         vf = F.fn_opt(v)
@@ -177,6 +194,152 @@ def run(ctx):
     _check_wiring(R, F, CG)
     _terms.INLINE_ACCESSORS = True
     return R
+
+
+def _validator_shape_ok(F, vf):
+    rows = bool_fn_table_inlined(F, vf)
+    atoms = sorted({a for (ats, val) in rows for (a, t) in ats} | {val[1] for (ats, val) in rows if isinstance(val, tuple)})
+    A = [a for a in atoms if "Extensions::get" in a and "is_some" in a]
+    B = [a for a in atoms if "contains" in a and "denylist" in a and "method_name" in a]
+    return len(A) == 1 and len(B) == 1 and len(atoms) == 2
+
+
+def _auth_atoms(v):
+    """{shown term: ('A'|'D', call)}: A = the request carries the Authorized marker, D = its method is on the deny list"""
+    from terms import call_origin
+    out = {}
+    for c in v.calls():
+        if v.is_cleanup(c.bb):
+            continue
+        t = call_origin(v, c.t, 0, frozenset(), 40)
+        if (c.method or "") == "contains" and c.args and mentions(origin(v, c.args[0]), "denylist") and mentions(origin(v, c.args[1]), "method_name"):
+            out[show(t)] = ("D", c)
+        if (c.method or "") in ("is_some", "is_none") and c.args:
+            src = origin(v, c.args[0])
+            gets = [x for x in calls_in(src) if x[1].endswith("Extensions::get")]
+            if gets and any("Authorized" in (g_[4] or "") or "Authorized" in (g_[3] or "") for g_ in gets):
+                out[show(t)] = ("A" if c.method == "is_some" else "notA", c)
+    return out
+
+
+def _dispatch_abstract(F, f, ic):
+    from terms import explore_under
+    v = F.inlined(f)
+    targets = {bi for bi in range(len(v.blocks)) if v.prov(bi) == (f.id, ic.bb)} or {ic.bb}
+    atoms = _auth_atoms(v)
+    kinds = sorted(k for k, _ in atoms.values())
+    if kinds not in (["A", "D"], ["D", "notA"]):
+        return False, "decision atoms found: %s" % kinds
+    names = sorted(atoms)
+    for combo in itertools.product([False, True], repeat=len(names)):
+        asg = dict(zip(names, combo))
+
+        def env_of(t, asg=asg):
+            x = t
+            while x[0] in ("ref", "deref", "cast"):
+                x = x[1]
+            if x[0] == "call":
+                sx = show(x)
+                if sx in asg:
+                    return asg[sx]
+            return None
+        rets, visited = explore_under(v, env_of)
+        for ub in getattr(explore_under, "undecided", ()):
+            succs = [sx for sx in v.succ(ub) if v.term(sx)["k"] != "unreachable"]
+            r_ = [any(tb in v.reachable(sx) for tb in targets) for sx in succs]
+            if any(r_) and not all(r_):
+                return False, "the inner call also depends on `%s`" % show(origin(v, v.term(ub)["discr"]))[:80]
+        val = {atoms[n][0]: asg[n] for n in names}
+        authorized = val["A"] if "A" in val else (not val["notA"])
+        want = authorized or (not val["D"])
+        got = any(tb in visited for tb in targets)
+        if got != want:
+            return False, "authorized=%s listed=%s: inner service %sreached" % (authorized, val["D"], "" if got else "not ")
+    return True, "abstract"
+
+
+def _batch_abstract(F, fb):
+    """every entry: replaced by Err exactly when it is an Ok entry whose method is listed and that carries no marker.  The
+    entry kinds (call, notification) are the *arms*: an arm is a (marker test, deny-list test) pair about the same message;
+    each arm is executed abstractly with the other arms' tests fenced off"""
+    from terms import explore_under, eval_term
+    bodies = [F.inlined(fb)] + [g for g in F.descendants(fb.id)]
+    decided = 0
+    for B in bodies:
+        stores = []
+        for bi, b in enumerate(B.blocks):
+            if b.get("cleanup"):
+                continue
+            for s_ in b["stmts"]:
+                if s_["k"] == "assign" and "*" in (s_["lhs"].get("p") or []):
+                    from terms import rvalue_origin as _rvo
+                    tv = _rvo(B, s_["rv"], 0, frozenset(), 20)
+                    if tv[0] == "agg" and tv[1].endswith("Result::Err"):
+                        stores.append(bi)
+        if not stores:
+            continue
+        atoms = _auth_atoms(B)
+        # pair the tests by the message they are about
+        def subject(c, kind):
+            t = origin(B, c.args[1] if kind == "D" else c.args[0])
+            for x in calls_in(t):
+                if x[1].split("::")[-1] in ("method_name", "extensions") and x[2]:
+                    return show(x[2][0])
+            return None
+        arms = {}
+        for n, (kind, c) in atoms.items():
+            sj = subject(c, kind)
+            if sj is None:
+                return False, "a marker / deny-list test in %s is not about a message of the batch" % B.name[-40:]
+            arms.setdefault(sj, {})["D" if kind == "D" else "A"] = (n, kind, c)
+        arms = {k: v for k, v in arms.items() if "A" in v and "D" in v}
+        if len(arms) < 2:
+            return False, "%d of the two entry kinds (call, notification) test both the marker and the deny list before an entry is replaced" % len(arms)
+
+        def make_env(asg):
+            def env_of(t):
+                x = t
+                while x[0] in ("ref", "deref", "cast"):
+                    x = x[1]
+                if x[0] == "call":
+                    sx = show(x)
+                    if sx in asg:
+                        return asg[sx]
+                    if x[1].split("::")[-1] in ("then", "then_some") and x[2]:
+                        c0 = eval_term(x[2][0], env_of)
+                        if isinstance(c0, bool):
+                            return "Some" if c0 else "None"
+                return None
+            return env_of
+        all_arm_blocks = {v[k][2].bb for v in arms.values() for k in ("A", "D")}
+        for sj, arm in arms.items():
+            fence = all_arm_blocks - {arm["A"][2].bb, arm["D"][2].bb}
+            for a_val, d_val in itertools.product([False, True], repeat=2):
+                asg = {arm["A"][0]: a_val, arm["D"][0]: d_val}
+                rets, visited = explore_under(B, make_env(asg), avoid=fence)
+                authorized = a_val if arm["A"][1] == "A" else (not a_val)
+                want = d_val and not authorized
+                # only paths that actually consulted this arm count (the others are the Err-entry / other-kind paths)
+                consulted = arm["D"][2].bb in visited or arm["A"][2].bb in visited
+                if not consulted:
+                    return False, "the tests of one entry kind are unreachable"
+                got = any(sb in visited and (B.sdominates(arm["D"][2].bb, sb) or B.sdominates(arm["A"][2].bb, sb) or _reaches_via(B, visited, arm, sb)) for sb in stores)
+                if got != want:
+                    return False, "an entry with authorized=%s listed=%s is %sreplaced by Err" % (authorized, d_val, "" if got else "not ")
+        # an entry that consults no arm (already Err) is left alone
+        rets, visited = explore_under(B, make_env({}), avoid=all_arm_blocks)
+        if any(sb in visited for sb in stores):
+            return False, "an entry is replaced by Err without any test"
+        decided += 1
+    if not decided:
+        return False, "no place where an entry is replaced by Err was found"
+    return True, "abstract"
+
+
+def _reaches_via(B, visited, arm, sb):
+    """the store is reached on an explored path that went through this arm's tests"""
+    starts = [arm["D"][2].bb, arm["A"][2].bb]
+    return any(st in visited and sb in B.reachable(st, avoid=set(range(len(B.blocks))) - visited) for st in starts)
 
 
 def _check_batch(R, F, fb, validators):
